@@ -474,7 +474,7 @@ def probes(w: World, o):
     if isinstance(o, w.Relationship):
         d = o.to_dict()
         d["topics_discussed"] = sorted(d["topics_discussed"])
-        return (d, o.relationship_quality, o.has_discussed("past"), o.has_discussed("se"))
+        return (d, o.relationship_quality, o.has_discussed("past"), o.has_discussed("as"), o.has_discussed("se"))
     if isinstance(o, m.Secret):
         return (o.check(o.__dict__.get("_pin")), o.check(object()))
     if isinstance(o, m.Box):
@@ -655,6 +655,7 @@ def dcase_term(flags, st_before, doc, fresh, st_after, imports):
 
 PINNED = [
     # (label, variables as specs) — the minimal failing inputs of F06a-e, always run
+    ("F06a-imports-only", {}),
     ("F06b-wallet", {"w": ("wallet", 30)}),
     ("F06b-secret", {"s": ("secret", ("str", "door"), ("int", 1234))}),
     ("F06c-hero-holds-object", {"h": ("hero", ("str", "Aria"), 3, ("list", [("plain", ("str", "sword"), ("int", 2))]))}),
@@ -663,7 +664,6 @@ PINNED = [
     ("nested-object-in-list-in-dict-in-object",
      {"b": ("box", ("str", "chest"), ("dict", [("k", ("list", [("plain", ("str", "gem"), ("tuple", [("int", 1)]))]))]),
             [("inventory", 10, [{"name": "Rope", "weight": 2, "value": 3}])])}),
-    ("F06a-imports-only", {}),
 ]
 
 
@@ -687,6 +687,29 @@ def run(tier: str, seed: int) -> int:
                                              "theorems about (false,false,false)"}
         ea, eb = w.engine(), w.engine()
 
+        # ---- (a2) state cases through save_state / load_state; the pinned minimal witnesses of F06a-e run
+        #      first so that they are the first entries of a replay file ----
+        dterms, dcases = [], []
+
+        def state_case(label, specs, supported=True, coq=True, story=None, prepare=None):
+            variables = {k: build(w, s) for k, s in specs.items()}
+            res = run_state_case(w, chk, variables, specs, supported, label, story, prepare)
+            if coq:
+                try:
+                    dterms.append(dcase_term(flags, *res))
+                    dcases.append({"label": label, "variables": specs})
+                except Unsupported as e:
+                    bump(dist["outcome"], f"state-skipped:{e}")
+            bump(dist["state_vars"], len(specs))
+            return res
+
+        for label, specs in PINNED:
+            state_case("pinned:" + label, specs, coq=not any(s[0] == "rel" for s in specs.values()))
+        # the same through `~` statements of a story
+        def play(A):
+            A.choose(0)
+            A.choose(0)
+        state_case("pinned:story-statements", {}, story=w.story2, prepare=play)
         # ---- (a1) value cases: supported stream and out-of-domain stream ----
         vterms, vcases = [], []
         for i in range(n_val + n_uns):
@@ -734,28 +757,7 @@ def run(tier: str, seed: int) -> int:
                            f"_serialize_value(v) is not JSON at {where[0] if where else '?'} ({tag})",
                            {"kind": "value", "spec": spec, "sub_seed": sub_seed})
 
-        # ---- (a2) state cases through save_state / load_state ----
-        dterms, dcases = [], []
-
-        def state_case(label, specs, supported=True, coq=True, story=None, prepare=None):
-            variables = {k: build(w, s) for k, s in specs.items()}
-            res = run_state_case(w, chk, variables, specs, supported, label, story, prepare)
-            if coq:
-                try:
-                    dterms.append(dcase_term(flags, *res))
-                    dcases.append({"label": label, "variables": specs})
-                except Unsupported as e:
-                    bump(dist["outcome"], f"state-skipped:{e}")
-            bump(dist["state_vars"], len(specs))
-            return res
-
-        for label, specs in PINNED:
-            state_case("pinned:" + label, specs, coq=not any(s[0] == "rel" for s in specs.values()))
-        # the same through `~` statements of a story
-        def play(A):
-            A.choose(0)
-            A.choose(0)
-        state_case("pinned:story-statements", {}, story=w.story2, prepare=play)
+        # ---- (a2, continued) generated state cases ----
         for i in range(n_state):
             sub_seed = rng.getrandbits(32)
             r2 = _r.Random(sub_seed)
@@ -791,6 +793,9 @@ def run(tier: str, seed: int) -> int:
                                  {"case": cases[b], "term": terms[b][:3000], "model_says": shown.get(b)})
                 else:
                     chk.disagree(label + "-coqc", "case shard failed to evaluate", {"log": log})
+        if flags != (True, True, True) and not chk.violations and not chk.known_hits:
+            chk.disagree("variant", f"the tree under test has the codec switches {flags}; the theorems of Props/C06.v are "
+                                    "about (True, True, True) and no oracle failed", {"flags": list(flags)})
         chk.cov["programs"] = len(vterms) + len(dterms) + n_py
         chk.cov["disagreements_checked"] = len(vterms) + len(dterms)
         chk.cov["disagreements_found"] = disagreements
@@ -817,3 +822,51 @@ def run(tier: str, seed: int) -> int:
         "the user's to_save_dict/from_save_dict enter the model as functions in the class table; for the test "
         "class Hero they are written out in Codec/CodecCheck.v"],
         "make -C /verif/coq && coqc -Q /verif/coq Bardic /verif/coq/Props/C06.v")
+
+
+class _Printer:
+    """Stands in for common.Check when a replay file is re-run: prints what the oracles report."""
+
+    def __init__(self):
+        self.n = 0
+
+    def report(self, signature, what, replay):
+        self.n += 1
+        print(f"  reproduced [{signature}]: {what}")
+
+
+def replay(path: str) -> int:
+    """Re-run the failing inputs of a replay file on the tree under test (run_check.py C06 --replay FILE)."""
+    C.use_repo()
+    data = json.load(open(path))
+    w = World()
+    out = _Printer()
+    try:
+        print(f"code variant (underscore_kept, custom_recursed, imports_kept) = {probe_flags(w)}")
+        ea, eb = w.engine(), w.engine()
+        for v in data.get("violations", []):
+            r = v.get("replay", {})
+            print(f"{v.get('signature')}: {v.get('what', '')[:160]}")
+            if r.get("kind") == "value" or "spec" in r.get("case", {}):
+                spec = r.get("spec") or r["case"]["spec"]
+                val = build(w, spec)
+                j, back = impl_value(w, ea, eb, val)
+                print(f"  spec = {spec!r}\n  serialised = {'<not JSON>' if j is FAILED else json.dumps(j)[:400]}")
+                if j is not FAILED and back != ("raised",):
+                    d = diff(w, val, back, "v")
+                    print(f"  first difference after the round trip: {d}")
+                    out.n += 1 if d else 0
+                else:
+                    out.n += 1
+            elif r.get("kind") == "state" or "variables" in r.get("case", {}):
+                specs = r.get("variables") if "variables" in r else r["case"]["variables"]
+                story = w.story2 if r.get("story") == "STORY2_SRC" else None
+
+                def play(A):
+                    A.choose(0)
+                    A.choose(0)
+                run_state_case(w, out, {k: build(w, s) for k, s in specs.items()}, specs, True,
+                               r.get("label", "replay"), story, play if story else None)
+    finally:
+        w.close()
+    return 1 if out.n else 0
